@@ -4,6 +4,7 @@ import (
 	"bytes"
 	"encoding/hex"
 	"fmt"
+	"math/big"
 	"strings"
 
 	"github.com/gcash/bchd/chaincfg"
@@ -109,3 +110,54 @@ func short(s string) string {
 func q(s string) string { return fmt.Sprintf("%q", s) }
 
 var _ = strings.ToLower
+
+// b58ZeroRunBody returns a Base58Check body (the bytes before the 4-byte
+// checksum) of bodyLen bytes that starts with the fixed bytes `fixed` and whose
+// complete encoding Base58(body || sha256d(body)[:4]) contains a run of ten
+// '1' characters (zero digits) at digit positions [k1, k1+10) counted from the
+// end of the string, k1 >= 7.  A decoder that folds digits in chunks meets an
+// all-zero chunk in the MIDDLE of the number there.  lowByte >= 0 additionally
+// forces the last body byte (e.g. the WIF compression marker).  Construction:
+// N = body*2^32 + checksum must lie in [A*58^(k1+10), A*58^(k1+10) + 58^k1);
+// the checksum is below 2^32 and 58^k1 > 2^40, so any body in a window of at
+// least 256 consecutive values works, whatever its checksum turns out to be.
+func b58ZeroRunBody(r *vf.Rand, fixed []byte, bodyLen, k1, lowByte int) ([]byte, bool) {
+	if k1 < 7 || bodyLen <= len(fixed)+8 {
+		return nil, false
+	}
+	body := r.Bytes(bodyLen)
+	copy(body, fixed)
+	v0 := new(big.Int).SetBytes(body)
+	two32 := new(big.Int).Lsh(big.NewInt(1), 32)
+	p2 := new(big.Int).Exp(big.NewInt(58), big.NewInt(int64(k1+10)), nil)
+	p1 := new(big.Int).Exp(big.NewInt(58), big.NewInt(int64(k1)), nil)
+	n0 := new(big.Int).Mul(v0, two32)
+	a := new(big.Int).Div(n0, p2)
+	lo := new(big.Int).Mul(a, p2) // A*58^k2
+	// smallest V with V*2^32 >= lo
+	v := new(big.Int).Add(lo, new(big.Int).Sub(two32, big.NewInt(1)))
+	v.Div(v, two32)
+	if lowByte >= 0 {
+		// next value with the required low byte
+		cur := int(new(big.Int).And(v, big.NewInt(255)).Int64())
+		v.Add(v, big.NewInt(int64((lowByte-cur+256)%256)))
+	}
+	// check the window: V*2^32 + (2^32-1) < lo + 58^k1
+	hi := new(big.Int).Mul(v, two32)
+	hi.Add(hi, two32)
+	if hi.Cmp(new(big.Int).Add(lo, p1)) > 0 {
+		return nil, false
+	}
+	out := v.Bytes()
+	if len(out) > bodyLen {
+		return nil, false
+	}
+	res := make([]byte, bodyLen)
+	copy(res[bodyLen-len(out):], out)
+	for i := range fixed {
+		if res[i] != fixed[i] {
+			return nil, false // the rounding carried into the fixed prefix
+		}
+	}
+	return res, true
+}
